@@ -3,6 +3,7 @@ from __future__ import annotations
 from typing import Callable
 
 from ._type_qualifier import Port, Generic, Temporary
+from ._boolean import _Boolean
 from ._collect_ast_and_scope import FunctionDefinition, InstantiatedFunction
 from cohdl.utility.source_location import SourceLocation
 from ._intrinsic import _intrinsic, _intrinsic_replacement, _IntrinsicInlineEntity
@@ -305,6 +306,12 @@ class Entity(Block):
                     # a port association cannot resize the actual
                     if hasattr(port, "width") and hasattr(value, "width"):
                         assert port.width == value.width
+
+                    # or convert between boolean and std_logic
+                    if hasattr(value, "type"):
+                        assert issubclass(port.type, _Boolean) == issubclass(
+                            value.type, _Boolean
+                        )
                 except:
                     raise AssertionError(
                         f"assignment to port '{name}' failed (src={value}, target={info.ports[name]})"
